@@ -70,6 +70,9 @@ def numeric_check(doc, model):
 
 
 def work(case):
+    if case['kind'] == 'seq':
+        # several documents in THIS process, one after the other: the same unit names mean different things
+        return [work({'kind': 'valid', 'doc': d}) for d in case['docs']]
     doc = case['doc']
     text = G.to_xml(doc)
     rec = G.impl_record(text)
@@ -99,6 +102,13 @@ def gen_cases(ctx):
             for (u1, u2) in ((('volt', 'mV'),) if ctx.tier == 'quick' else (('volt', 'mV'), ('uV', 'uV'))):
                 out.append({'kind': 'enum', 'doc': G.two_comp_doc(p1, v1, p2, v2, rel, sw, u1, u2), 'swap': sw,
                             'valid': G.spec_valid_pair(p1, v1, p2, v2, rel)})
+    # the same document with the meaning of the user units uv_x / ut_x changed, loaded in one process in both orders
+    ns = 15 if ctx.tier == 'quick' else 200
+    for i in range(ns):
+        seed = ctx.seed * 100000 + 80000 + i
+        fl = random.Random(seed).sample([0, 1, 2], 2)
+        da, db = G.gen_valid(seed, flavour=fl[0]), G.gen_valid(seed, flavour=fl[1])
+        out.append({'kind': 'seq', 'gen_seed': seed, 'docs': [da, db, da]})
     nf = 12 if ctx.tier == 'quick' else 150
     for i in range(nf):
         seed = ctx.seed * 100000 + 70000 + i
@@ -107,6 +117,16 @@ def gen_cases(ctx):
 
 
 def evaluate(ctx, cases, results, use_model=True):
+    fc, fr = [], []
+    for case, res in zip(cases, results):
+        if case['kind'] == 'seq':
+            for j, (d, r) in enumerate(zip(case['docs'], res)):
+                fc.append({'kind': 'seqdoc', 'gen_seed': case['gen_seed'], 'doc': d, 'pos': j, 'seq': case})
+                fr.append(r)
+        else:
+            fc.append(case)
+            fr.append(res)
+    cases, results = fc, fr
     mods = {}
     idx = [i for i, (c, (rec, num)) in enumerate(zip(cases, results)) if rec['status'] != 'schema']
     if use_model and ctx.model_ok() and idx:
@@ -119,11 +139,11 @@ def evaluate(ctx, cases, results, use_model=True):
     for i, (case, (rec, num)) in enumerate(zip(cases, results)):
         kind = case['kind']
         unit_change = any(e.get('kind') == 'conv?' for e in rec.get('eqs', []))
-        ctx.count(case_key=(kind, case.get('gen_seed'), (case['doc'].get('enum')), case.get('swap')),
+        ctx.count(case_key=(kind, case.get('gen_seed'), (case['doc'].get('enum')), case.get('swap'), case.get('pos')),
                   nontrivial=(kind != 'enum' and unit_change) or (kind == 'enum' and case.get('valid')),
                   kind=kind + (':unit-change' if unit_change else ''))
         # ---- stage D
-        if kind in ('valid', 'floor') and rec['status'] != 'ok':
+        if kind in ('valid', 'floor', 'seqdoc') and rec['status'] != 'ok':
             ctx.violation('generated valid document %s is refused: %s %s' % (case.get('gen_seed'), rec.get('family'),
                                                                               rec.get('msg')), slim(case))
         if num is not None:
@@ -160,6 +180,8 @@ def evaluate(ctx, cases, results, use_model=True):
 
 
 def slim(case):
+    if case.get('seq') is not None:          # replay the whole sequence, in one process
+        return dict(case['seq'], failing_position=case.get('pos'))
     return {k: v for k, v in case.items()}
 
 
@@ -168,10 +190,12 @@ def run(ctx):
                 'values routed over 1-4 hops through public/private in/out, component_1/2 and variable_1/2 randomly '
                 'swapped, shuffled file order, units of equal dimension and different scale (volt/mV/uV, second/ms, '
                 'dimensionless/percent, a user base unit and its kilo-multiple, areas m2 / 0.5 m2 / 0.25 (cm)2 that combine '
-                'multiplier, prefix and exponent), assignments over + - * / ** exp, ODEs, '
+                'multiplier, prefix and exponent, half-integer powers of second / ms, two unit names uv_x / ut_x whose definition '
+                'changes from document to document), assignments over + - * / ** exp, ODEs, '
                 'derivatives on right-hand sides, initial-value constants, cmeta ids; every variable compared at 3 random '
-                'states; the 9x9x4 two-component interface documents in both orientations (quick: 60 of 324); a stratum '
-                'with floor / ceiling / rem (known finding F14); non-trivial = has a unit-changing connection')
+                'states; the 9x9x4 two-component interface documents in both orientations (quick: 60 of 324); the same document under two meanings of uv_x / ut_x '
+                'loaded in ONE process in the order a, b, a; number-free equations; a stratum with floor / ceiling / rem '
+                '(known finding F14); non-trivial = has a unit-changing connection')
     ctx.trusted += ['the reference semantics reads every number and variable of an equation as a physical quantity '
                     '(value x scale of its unit); for equations whose operands share one unit per dimension this is the '
                     'numeric reading of the component', 'numeric comparison with relative tolerance 1e-9',
@@ -204,7 +228,7 @@ def load_corpus():
 
 def replay(ctx, case):
     c = case.get('case', case)
-    c = {k: v for k, v in c.items() if k != 'detail'}
+    c = {k: v for k, v in c.items() if k not in ('detail', 'failing_position')}
     evaluate(ctx, [c], [work(c)])
     if ctx.violations:
         return ctx.violations[0][0]
@@ -223,6 +247,7 @@ def rounding_of_rescaled_quantity(case):
     doc = case.get('doc')
     if not doc or case.get('kind') != 'floor':
         return False
+    scales = G.doc_scales(doc)
     for c in doc['comps']:
         units = {v['name']: v for v in c['vars']}
         for m in c['maths']:
@@ -232,9 +257,9 @@ def rounding_of_rescaled_quantity(case):
                 for kind, x in G.expr_leaves(q[1]) + G.expr_leaves(q[2]):
                     if kind == 'id':
                         v = units.get(x)
-                        if v is None or v.get('owner') or G.SCALE.get(v['units'], 0) != 1:
+                        if v is None or v.get('owner') or scales.get(v['units'], 0) != 1:
                             return True
-                    elif G.SCALE.get(x, 0) != 1:
+                    elif scales.get(x, 0) != 1:
                         return True
     return False
 
